@@ -615,6 +615,26 @@ func rC18Partition(w *World, r *Report) {
 			}
 		}
 		ru.Check(good, name+"/partition", w.IPos(hdr.Instrs[0]), "if IsRequired { required } else { normal }", "the required/normal partition is not total: "+why)
+		// both lists start as fresh empty slices: nothing of the caller's list is overwritten (helpOutput hands the same
+		// list to Synopsis and OptionList; sorting or compacting it in place would change what the other section shows)
+		for _, acc := range accs {
+			fresh := true
+			for i, e := range acc.Edges {
+				if hdr.Dominates(hdr.Preds[i]) {
+					continue // back edge
+				}
+				els, spreads, ok := elementsOf(e, map[ssa.Value]bool{})
+				if !ok || len(spreads) > 0 || len(els) > 0 {
+					fresh = false
+				}
+				if sl, isSl := e.(*ssa.Slice); isSl {
+					if _, isAlloc := rootOfAddr(sl.X).(*ssa.Alloc); !isAlloc {
+						fresh = false
+					}
+				}
+			}
+			ru.Check(fresh, name+"/list-fresh/"+acc.Comment, w.IPos(acc), "starts as a fresh empty slice", "list "+acc.Comment+" is built inside the caller's slice: the option list shared with the other help sections is overwritten")
+		}
 		// both accumulators sorted and rendered
 		for _, acc := range accs {
 			sorted := false
@@ -629,6 +649,70 @@ func rC18Partition(w *World, r *Report) {
 			ru.Check(sorted && rendered, name+"/list/"+acc.Comment, w.IPos(acc), "sorted and rendered", fmt.Sprintf("list %s: sorted=%v rendered=%v (options of that class would be missing or unordered)", acc.Comment, sorted, rendered))
 		}
 	}
+}
+
+// written returns the view of the tree without helper normalisation.
+func (w *World) written() *World {
+	if w.AsWritten != nil {
+		return w.AsWritten
+	}
+	return w
+}
+
+// elementRenderers: the functions (closures or same-package functions) that fn calls inside a range loop with the
+// loop element (or its address) as an argument, where the element has type elemType.
+func elementRenderers(w *World, fn *ssa.Function, elemType string) []*ssa.Function {
+	var out []*ssa.Function
+	seen := map[*ssa.Function]bool{}
+	for _, h := range loopHeaders(fn) {
+		elem := rangeElem(h)
+		if elem == nil {
+			continue
+		}
+		for b := range naturalLoop(h) {
+			for _, in := range b.Instrs {
+				c, ok := in.(*ssa.Call)
+				if !ok {
+					continue
+				}
+				var target *ssa.Function
+				switch v := c.Call.Value.(type) {
+				case *ssa.Function:
+					target = v
+				case *ssa.MakeClosure:
+					target, _ = v.Fn.(*ssa.Function)
+				default:
+					// a call through a local variable holding a closure of fn
+					for _, leaf := range phiLeaves(c.Call.Value, map[ssa.Value]bool{}) {
+						if mc, ok := leaf.(*ssa.MakeClosure); ok {
+							target, _ = mc.Fn.(*ssa.Function)
+						}
+						if f, ok := leaf.(*ssa.Function); ok {
+							target = f
+						}
+					}
+				}
+				if target == nil || target.Blocks == nil || w.PkgOfFn(target) == nil || seen[target] {
+					continue
+				}
+				for i, a := range c.Call.Args {
+					isElem := a == elem
+					if al, ok := a.(*ssa.Alloc); ok {
+						for _, sv := range storesInto(al) {
+							if sv == elem {
+								isElem = true
+							}
+						}
+					}
+					if isElem && i < len(target.Params) && typeString(target.Params[i].Type()) == elemType {
+						seen[target] = true
+						out = append(out, target)
+					}
+				}
+			}
+		}
+	}
+	return out
 }
 
 // usedByRenderLoop: the list (or an append of it) is ranged over and a closure is called on each element.
@@ -654,6 +738,19 @@ func usedByRenderLoop(fn *ssa.Function, list ssa.Value) bool {
 								return true
 							}
 						}
+					}
+					// a same-package renderer function, or the renderer's body inlined in the loop (reads the element's synopsis)
+					if c, ok := in.(*ssa.Call); ok {
+						if callee := c.Call.StaticCallee(); callee != nil && callee.Pkg == fn.Pkg {
+							for _, a := range c.Call.Args {
+								if a == elem {
+									return true
+								}
+							}
+						}
+					}
+					if fa, ok := in.(*ssa.FieldAddr); ok && fa.X == elem && fieldOfAddr(fa).Name() == "HelpSynopsis" {
+						return true
 					}
 				}
 			}
@@ -693,6 +790,24 @@ func rC18Routes(w *World, r *Report) {
 			continue
 		}
 		for _, c := range allCalls(fn) {
+			// help text is written with fmt.Fprint only: the text is data, never a format
+			if cn := calleeName(c); strings.HasPrefix(cn, "fmt.Fp") && cn != "fmt.Fprint" && len(c.Common().Args) > 1 && isLoadOfGlobal(c.Common().Args[0], "getoptions.Writer") {
+				usesHelp := false
+				for _, a := range c.Common().Args[1:] {
+					p := NewProv(w, fn)
+					p.opaque["getoptions.helpOutput"] = true
+					p.opaque["(*getoptions.GetOpt).Help"] = true
+					p.Slice(a)
+					for _, o := range p.Ops {
+						if o.Kind == "call:getoptions.helpOutput" || o.Kind == "call:(*getoptions.GetOpt).Help" {
+							usesHelp = true
+						}
+					}
+				}
+				if usesHelp {
+					ru.Bad("route/"+name+"/printer", w.IPos(c), "help text is written with "+cn+" on this route (as a format or with an added line end): the routes print different text")
+				}
+			}
 			if calleeName(c) != "fmt.Fprint" || !isLoadOfGlobal(c.Common().Args[0], "getoptions.Writer") {
 				continue
 			}
@@ -768,9 +883,16 @@ func rC18Commands(w *World, r *Report) {
 
 func rC18Fields(w *World, r *Report) {
 	ru := r.Rule("R18.6", "the per-option help line prints HelpSynopsis and Description for every option, DefaultStr for every non-required option and EnvVar on both branches", 4)
-	fn := w.Fn("help.OptionList$1")
+	// the per-option renderer: the closure (or function) OptionList calls on every element of its option lists
+	w = w.written()
+	var fn *ssa.Function
+	if ol := w.Fn("help.OptionList"); ol != nil {
+		if rs := elementRenderers(w, ol, "*option.Option"); len(rs) == 1 {
+			fn = rs[0]
+		}
+	}
 	if fn == nil {
-		ru.Undecided("anchor", "-", "per-option renderer (closure of OptionList) not found")
+		ru.Undecided("anchor", "-", "per-option renderer (the function OptionList calls on each option) not found")
 		return
 	}
 	reads := map[string][]ssa.Instruction{}
@@ -810,6 +932,46 @@ func rC18Fields(w *World, r *Report) {
 		if isReqFact(call.Block(), false) {
 			envNorm = true
 		}
+	}
+	// nothing else decides whether they are shown: the default is printed for every non-required option (an empty
+	// one included) and the variable for every bound option
+	extraCond := func(b *ssa.BasicBlock, allowEnvTest bool) string {
+		for _, f := range factsAt(b) {
+			if f.If == nil || f.If.Parent() != fn {
+				continue
+			}
+			if f.Op == token.ILLEGAL {
+				if _, ok := loadOfFieldNamed(f.X, "IsRequired"); ok {
+					continue
+				}
+			}
+			if allowEnvTest && f.Op == token.NEQ && f.Y != nil {
+				x, y := f.X, f.Y
+				if _, isC := constString(x); isC {
+					x, y = y, x
+				}
+				if _, ok := loadOfFieldNamed(x, "EnvVar"); ok && isConstStr(y, "") {
+					continue
+				}
+			}
+			return w.IPos(f.If)
+		}
+		return ""
+	}
+	for _, in := range reads["DefaultStr"] {
+		if !isReqFact(in.Block(), false) {
+			continue
+		}
+		at := extraCond(in.Block(), false)
+		ru.Check(at == "", "line/DefaultStr-unconditional", w.IPos(in), "shown for every non-required option", "the default is shown only under an extra condition ("+at+"): some non-required options lose their default (and whatever is printed with it)")
+	}
+	for _, c := range callsTo(fn, "fmt.Sprintf") {
+		call := c.(*ssa.Call)
+		if !mentionsFieldArgs(w, fn, call, "EnvVar") {
+			continue
+		}
+		at := extraCond(call.Block(), true)
+		ru.Check(at == "", "line/EnvVar-unconditional", w.IPos(call), "shown for every bound option", "the environment variable is shown only under an extra condition ("+at+")")
 	}
 	// printing: a Sprintf with the env format on both branches
 	ru.Check(envReq && envNorm, "line/EnvVar", w.Pos(fn.Pos()), "environment variable shown on both branches", fmt.Sprintf("the bound environment variable is not shown for every option (required branch=%v, normal branch=%v)", envReq, envNorm))
@@ -1007,17 +1169,41 @@ func rC17Sections(w *World, r *Report) {
 			}
 			n++
 			guarded := false
+			spelled := true
 			for _, f := range factsAt(c.Block()) {
 				if f.Op == token.ILLEGAL && f.Truth {
 					if hc, ok := f.X.(*ssa.Call); ok && calleeName(hc) == "strings.HasPrefix" && m.fromTyped(hc.Call.Args[1]) {
 						if sp, ok := hc.Call.Args[0].(*ssa.Call); ok && calleeName(sp) == "fmt.Sprintf" {
 							if f0, ok := constString(sp.Call.Args[0]); ok && f0 == "--%s=%s" {
 								guarded = true
+								// the name written into the candidate is the table key that was matched against the typed word
+								// (an alias typed by the user must be completed as that alias)
+								if len(sp.Call.Args) > 1 {
+									if nels, _, ok := elementsOf(sp.Call.Args[1], map[ssa.Value]bool{}); ok && len(nels) >= 1 {
+										nm := nels[0]
+										if mi, isMI := nm.(*ssa.MakeInterface); isMI {
+											nm = mi.X
+										}
+										// the same value is the second operand of a dominating strings.HasPrefix(typed name, key)
+										isKey := false
+										for _, f2 := range factsAt(c.Block()) {
+											if f2.Op == token.ILLEGAL && f2.Truth {
+												if h2, ok := f2.X.(*ssa.Call); ok && calleeName(h2) == "strings.HasPrefix" && h2.Call.Args[1] == nm {
+													isKey = true
+												}
+											}
+										}
+										if !isKey {
+											spelled = false
+										}
+									}
+								}
 							}
 						}
 					}
 				}
 			}
+			ru.Check(spelled, "value-candidates/name-as-typed", w.IPos(c), "the candidate repeats the table key matched against the typed word", "value candidates are spelled with a name other than the one matched against the typed word: after `--alias=` nothing (or a duplicate) is offered")
 			ru.Check(guarded, "value-candidates/whole-word", w.IPos(c), "appended under HasPrefix(\"--name=value\", typed word)", "a suggested value is offered without comparing the whole `--name=value` with the typed word: values of options whose name is only a prefix of the typed name leak in")
 		}
 	})
@@ -1078,9 +1264,15 @@ func rC17Sections(w *World, r *Report) {
 // R18.8: synopsis arms render through the bracket wrapper only.
 func rC18SynopsisArms(w *World, r *Report) {
 	ru := r.Rule("R18.8", "every arm of the per-option synopsis renders wrap(opt.HelpSynopsis) (plus the constant \"...\"), where wrap is the bracket wrapper chosen from IsRequired: no arm formats brackets on its own", 1)
-	fn := w.Fn("help.Synopsis$1")
+	w = w.written()
+	var fn *ssa.Function
+	if sy := w.Fn("help.Synopsis"); sy != nil {
+		if rs := elementRenderers(w, sy, "*option.Option"); len(rs) == 1 {
+			fn = rs[0]
+		}
+	}
 	if fn == nil {
-		ru.Undecided("anchor", "-", "per-option synopsis closure not found")
+		ru.Undecided("anchor", "-", "per-option synopsis renderer (the function Synopsis calls on each option) not found")
 		return
 	}
 	eachInstr(fn, func(in ssa.Instruction) {
@@ -1124,10 +1316,15 @@ func rC18SynopsisArms(w *World, r *Report) {
 // R18.9: the arguments section renders the argument list it was given.
 func rC18Args(w *World, r *Report) {
 	ru := r.Rule("R18.9", "OptionList renders its arguments by ranging over the `args` parameter itself (no per-argument filter): when the section is shown every declared argument is listed once", 1)
+	w = w.written()
 	fn := w.Fn("help.OptionList")
 	if fn == nil {
 		ru.Undecided("anchor", "-", "OptionList not found")
 		return
+	}
+	argRenderers := map[*ssa.Function]bool{}
+	for _, f := range elementRenderers(w, fn, "*help.SynopsisArg") {
+		argRenderers[f] = true
 	}
 	var args *ssa.Parameter
 	for _, p := range fn.Params {
@@ -1146,6 +1343,16 @@ func rC18Args(w *World, r *Report) {
 			for _, in := range b.Instrs {
 				if c, ok := in.(*ssa.Call); ok && strings.HasPrefix(calleeName(c), "dyn:func(arg *help.SynopsisArg)") || ok && calleeName(c) == "help.OptionList$2" {
 					renders = true
+				}
+				if c, ok := in.(*ssa.Call); ok {
+					if t := c.Call.StaticCallee(); t != nil && argRenderers[t] {
+						renders = true
+					}
+					if mc, ok := c.Call.Value.(*ssa.MakeClosure); ok {
+						if t, ok := mc.Fn.(*ssa.Function); ok && argRenderers[t] {
+							renders = true
+						}
+					}
 				}
 			}
 		}
